@@ -7,6 +7,7 @@ pub mod c03;
 pub mod c06;
 pub mod c07;
 pub mod c08;
+pub mod c10;
 
 #[derive(Clone, Copy, PartialEq, Debug)]
 pub enum Tier {
@@ -30,7 +31,7 @@ pub struct PropDef {
 }
 
 pub fn all() -> Vec<PropDef> {
-    vec![c02::def(), c03::def(), c06::def(), c07::def(), c08::def()]
+    vec![c02::def(), c03::def(), c06::def(), c07::def(), c08::def(), c10::def()]
 }
 
 pub fn find(id: &str) -> Option<PropDef> {
